@@ -257,6 +257,7 @@ impl Ctx {
     if p.in_harness() {
       panic!("harness bug: panic in harness code at {}: {}", p.loc(), p.msg);
     }
+    self.rep.inc(&format!("panics_via:{}", entry));
     let sig = if out_of_range {
       format!("index-out-of-range-panic@{}", p.file_only())
     } else {
@@ -992,6 +993,9 @@ impl Ctx {
     let call = format!("entry({})", i);
     self.rep.inc("cred_entry_calls");
     let inr = i < w.model.len();
+    if !inr {
+      self.rep.inc("oob_probes");
+    }
     match catch(|| w.lc.entry(i)) {
       Err(p) => self.on_panic("StatusList2021Credential::entry", !inr, &p, self.cred_case(w, &call, json!({"len":w.model.len()}))),
       Ok(Ok(st)) => {
@@ -1589,7 +1593,7 @@ fn main() {
 
   // ---- (2) random histories
   let mut rng = args.rng(12);
-  let n_seq = scaled(if thorough { 12_000 } else { 240 }, scale);
+  let n_seq = scaled(if thorough { 24_000 } else { 800 }, scale);
   let per_shard = n_seq.div_ceil(args.nshards.max(1));
   for s in 0..per_shard {
     let route = gen_route(&mut rng, true);
@@ -1614,7 +1618,7 @@ fn main() {
     .build()
     .expect("template credential");
   let mut rng3 = args.rng(1203);
-  let n_sc = scaled(if thorough { 4_000 } else { 96 }, scale);
+  let n_sc = scaled(if thorough { 8_000 } else { 320 }, scale);
   let per_shard = n_sc.div_ceil(args.nshards.max(1));
   for s in 0..per_shard {
     let big = s % 16 == 7 && scale >= 100;
